@@ -1,22 +1,90 @@
-import NbioVerif.Lemmas.C15
+import NbioVerif.Lemmas.WsLimits
 import NbioVerif.Lemmas.WsTables
-/-! C15 — size limits (property theorems; see docs/ws.md) -/
+/-! C15 — WebSocket size limits hold, including against decompression bombs.
+
+    Model: `Ws.parse` (Conn.Parse / nextFrame / readAll) fed by `Ws.feed` with any list of segments, from the initial
+    state; `g.msgLimit` = MessageLengthLimit (0 = unlimited), `g.readLimit` = Engine.ReadLimit.  The inflater's
+    answers (`e.inflate`: output, chunking, allocator capacities) and the mask keys are arbitrary. -/
 namespace Ws
 
-/-- C15: a data frame accepted by `nextFrame` fits into the limit together with what is already assembled -/
-theorem c15_frame_fits (g : Cfg) (s : S) (hl : g.msgLimit > 0) (total op : Nat) (body : Bytes) (fin r1 : Bool)
-    (h : nextFrame g s = .frame total op body fin r1) (hop : isControl op = false) :
-    msgLen s + body.length ≤ g.msgLimit := nextFrame_fits g s hl total op body fin r1 h hop
+/-- C15 (delivered): whatever bytes arrive in whatever segmentation, whatever the inflater and the allocator do,
+    no message longer than the limit reaches the message handler — in one frame, in fragments, or inflated -/
+theorem c15_delivered_within (g : Cfg) (e : Env) (segs : List Bytes) (hL : g.msgLimit > 0) (t : Nat) (p : Bytes)
+    (h : Act.deliver t p ∈ (feed g e {} segs []).acts) : p.length ≤ g.msgLimit := by
+  have hB := length_le_sum segs
+  have := feed_limits g e _ segs {} [] hB (by intro _; simp [msgLen, K.len]) (by intro _; simp) (by intro _ t p hp; cases hp)
+  exact this.1 hL t p h
 
-/-- C15: a control frame accepted by `nextFrame` carries at most 125 bytes -/
+/-- C15 (buffered): in every reachable state — alive or failed — the message under assembly is within the limit -/
+theorem c15_buffered_within (g : Cfg) (e : Env) (segs : List Bytes) (hL : g.msgLimit > 0) :
+    msgLen (feed g e {} segs []).s ≤ g.msgLimit := by
+  have hB := length_le_sum segs
+  have := feed_limits g e _ segs {} [] hB (by intro _; simp [msgLen, K.len]) (by intro _; simp) (by intro _ t p hp; cases hp)
+  exact this.2.1 hL
+
+/-- C15 (inflate): `readAll` never returns (nor keeps) more than the limit, for every inflater output, chunking and
+    allocator capacity script; in particular a bomb cannot get through -/
+theorem c15_readAll_bound (L size : Nat) (o : InflObs) (b : Bytes) (hL : L > 0) (h : readAll L size o = .ok b) : b.length ≤ L :=
+  readAll_bound L size o b hL h
+
+/-- C15 (inflate loop progress): a full buffer below the limit grows by at least one byte and never past the limit;
+    a reader step that returns nothing without an error on a non-empty buffer is outside the model (`stuck`),
+    every other step consumes one `Read` — the loop is structurally recursive on the reader's answers -/
+theorem c15_readAll_grows (L l : Nat) (hl : l > 0) : (L = 0 ∨ l + 1 ≤ L → growBy L l > 0) ∧ (L > 0 → l ≤ L → l + growBy L l ≤ L) :=
+  ⟨growBy_pos L l hl, growBy_le L l⟩
+
+/-- C15 (refusal): a data frame whose declared length does not fit with what is already assembled fails Parse with
+    the too-large error as soon as the header is there (declared length only: no payload needs to follow) -/
+theorem c15_oversize_refused (g : Cfg) (s : S) (h : HdrInfo) (hd : decodeHdr s.cache = some (.ok h)) (hc : isControl h.opcode = false)
+    (hL : g.msgLimit > 0) (hbig : (msgLen s : Int) + h.bodyLen > g.msgLimit) : nextFrame g s = .err .tooLarge :=
+  oversize_refused g s h hd hc hL hbig
+
+/-- C15 (1009): a Parse call that fails with the too-large or the control-too-big error has written a close frame
+    with code 1009 (as long as the conn could still be written to) -/
+theorem c15_1009 (g : Cfg) (e : Env) (s : S) (data : Bytes) (er : Err)
+    (h : (parse g e s data).err = some er) (her : er = .tooLarge ∨ er = .controlTooBig)
+    (hk : (parse g e s data).s.k.connClosed = false) :
+    ∃ key, Act.write (encodeFrame g.isClient key 8 true true (be16 1009 ++ tooBigReason er) false) ∈ (parse g e s data).acts := by
+  rcases parse_cases g e s data with hp | hp | ⟨hp, _⟩
+  · rw [hp] at h; cases h
+  · rw [hp] at h; cases h; rcases her with h' | h' <;> cases h'
+  · rw [hp] at h hk ⊢; exact run_1009 g e _ [] er h her hk
+
+/-- C15 (control, receive): a control frame handed to the handlers carries at most 125 bytes … -/
 theorem c15_control_recv (g : Cfg) (s : S) (total op : Nat) (body : Bytes) (fin r1 : Bool)
     (h : nextFrame g s = .frame total op body fin r1) (hop : isControl op = true) : body.length ≤ 125 :=
   nextFrame_control_le g s total op body fin r1 h hop
 
-/-- C15: `WriteMessage` refuses control payloads over 125 bytes (and the constant is the code's) -/
+/-- … and one that declares more is refused as soon as its header is complete -/
+theorem c15_control_refused (g : Cfg) (s : S) (h : HdrInfo) (hd : decodeHdr s.cache = some (.ok h)) (hc : isControl h.opcode = true)
+    (hbig : h.bodyLen > 125) : nextFrame g s = .err .controlTooBig :=
+  control_oversize_refused g s h hd hc hbig
+
+/-- C15 (control, send): `WriteMessage` refuses control payloads over 125 bytes (the constant is the code's) and writes nothing -/
 theorem c15_control_send (g : Cfg) (e : Env) (i op : Nat) (data : Bytes) (hop : isControl op = true)
     (hl : data.length > Gen.maxControlFramePayloadSize) : writeMessage g e i op data = .error .controlTooBig := by
   have : data.length > 125 := hl
   simp [writeMessage, hop, this]
+
+/-- C15 (cache): the unparsed input kept between Parse calls never exceeds the read limit, except that a single read
+    into an empty cache may be kept whole: `|bytesCached| ≤ max ReadLimit (longest read)` in every reachable state -/
+theorem c15_cache_bound (g : Cfg) (e : Env) (segs : List Bytes) (B : Nat) (hB : ∀ seg ∈ segs, seg.length ≤ B) (hr : g.readLimit > 0) :
+    (feed g e {} segs []).s.cache.length ≤ max g.readLimit B := by
+  have := feed_limits g e B segs {} [] hB (by intro _; simp [msgLen, K.len]) (by intro _; simp) (by intro _ t p hp; cases hp)
+  exact this.2.2 hr
+
+/-! non-vacuity -/
+
+def demoCfg : Cfg := { enableCompression := true, writeCompression := true, msgLimit := 3, readLimit := 8, maxFrame := 100, isClient := false }
+def demoEnv : Env := { keyAt := fun _ => [0, 0, 0, 0], deflate := id, inflate := fun _ => ⟨[], []⟩ }
+
+/-- a 3-byte binary message passes a limit of 3, a 4-byte one is refused with 1009 -/
+example : (feed demoCfg demoEnv {} [[0x82, 3, 1, 2, 3]] []).acts = [.deliver 2 [1, 2, 3]] := by decide
+example : (feed demoCfg demoEnv {} [[0x82, 4, 1, 2, 3, 4]] []).err = some .tooLarge := by decide
+example : (feed demoCfg demoEnv {} [[0x82, 4]] []).acts.map (fun a => match a with | .write b => b.take 4 | _ => []) = [[0x88, 38, 0x03, 0xf1]] := by
+  decide
+/-- an inflater that hands out 4 bytes against a limit of 3 is stopped -/
+example : readAll 3 10 ⟨[1, 2, 3, 4], [⟨1024, 3, 0⟩, ⟨1, 1, 0⟩]⟩ = .tooLarge := by decide
+example : readAll 3 10 ⟨[1, 2, 3], [⟨1024, 3, 0⟩, ⟨1, 0, 1⟩]⟩ = .ok [1, 2, 3] := by decide
 
 end Ws
